@@ -15,6 +15,13 @@ package main
 //	gc                  two garbage collections with time for the finalizers to run
 //	io L                use the held File (fstat through its descriptor)
 //	cd dir              change directory (paths are spelled absolutely and relatively)
+//	call api mode path  one COMPLETE use of the package in a goroutine of its own: Transform / Write /
+//	                    Read, or Create / Edit / Open / MutexAt(path).Lock() followed by the documented
+//	                    `defer f.Close()` / `defer unlock()`; the callback (Transform's t, Write's content
+//	                    reader) or the body under the defer ends as `mode` says: ok, err (returns an
+//	                    error), panic (recovered by the caller of the goroutine's function, above the
+//	                    package), goexit (runtime.Goexit, what t.Fatal does).  However it ends, when the
+//	                    goroutine is gone the call has released what it took.
 //
 // — and answers with the result and the number of descriptors it has on each file.  After every
 // step the runner, ANOTHER process, asks the kernel for flock(LOCK_EX|LOCK_NB) / (LOCK_SH|LOCK_NB)
@@ -27,8 +34,12 @@ package main
 // call is issued only when the reference says nobody holds the file), with: several holders in
 // one process, redundant Close calls on stale File values after other calls have reused their
 // descriptor numbers, the same Mutex value through many Lock/unlock cycles, files that do not
-// exist yet, relative spellings of one file from two working directories, and garbage
-// collections while locks are held.  The same script is run through the extracted handle-level
+// exist yet, ten spellings of one file from two working directories (absolute and relative; plain,
+// through a symlinked directory, through a symlinked directory followed by `..` — which the OS
+// resolves to the parent of the link's TARGET, not to the directory the link is in —, through a
+// symlink to the file itself: every spelling the OS resolves to one file must contend for one
+// lock, whichever API it is handed to), complete calls whose callback / body panics, calls
+// runtime.Goexit or returns an error, and garbage collections while locks are held.  The same script is run through the extracted handle-level
 // model (Handles.v: hrun) and compared step by step (correspondence).
 
 import (
@@ -56,6 +67,90 @@ type hsHolder struct {
 	unlock func()
 	called bool // the unlock function has been called (it may be called once only)
 	path   string
+	dev    uint64 // the file the name pointed to when the call returned (as the OS resolves it)
+	ino    uint64
+	have   bool
+}
+
+type hsSentinelT struct{}
+
+var hsSentinel = hsSentinelT{}
+
+type hsFailingReader struct{ end func() error }
+
+func (r hsFailingReader) Read(p []byte) (int, error) {
+	if err := r.end(); err != nil {
+		return 0, err
+	}
+	return 0, io.EOF
+}
+
+// hsBody: one complete use of the package; the callback / the body under the deferred Close ends
+// as mode says.
+func hsBody(api, mode, path string) error {
+	end := func() error {
+		switch mode {
+		case "err":
+			return fmt.Errorf("declined")
+		case "panic":
+			panic(hsSentinel)
+		case "goexit":
+			runtime.Goexit()
+		}
+		return nil
+	}
+	switch api {
+	case "transform":
+		return lockedfile.Transform(path, func(old []byte) ([]byte, error) {
+			if err := end(); err != nil {
+				return nil, err
+			}
+			return old, nil
+		})
+	case "read":
+		_, err := lockedfile.Read(path)
+		return err
+	case "write":
+		return lockedfile.Write(path, hsFailingReader{end}, 0o666)
+	case "mutexat":
+		unlock, err := lockedfile.MutexAt(path).Lock()
+		if err != nil {
+			return err
+		}
+		defer unlock()
+		return end()
+	}
+	f, _, err := hsOpen(api, path)
+	if err != nil {
+		return err
+	}
+	if f == nil {
+		return fmt.Errorf("bad api")
+	}
+	defer f.Close()
+	return end()
+}
+
+// hsCall runs hsBody in a goroutine of its own (Goexit ends that goroutine only) under a recover
+// that stands for the caller's: OK / ERR (returned), UNWOUND (our panic came through), GOEXIT,
+// PANIC:... (somebody else's panic).
+func hsCall(api, mode, path string) string {
+	done := make(chan string, 1)
+	go func() {
+		st := "GOEXIT"
+		defer func() { done <- st }()
+		defer func() {
+			if e := recover(); e != nil {
+				if e == any(hsSentinel) {
+					st = "UNWOUND"
+				} else {
+					st = "PANIC:" + hexs([]byte(fmt.Sprint(e)))
+				}
+			}
+		}()
+		st = errStatus(hsBody(api, mode, path))
+	}()
+	return <-done
 }
 
 func hsOpen(api, path string) (*lockedfile.File, func(), error) {
@@ -120,14 +215,18 @@ func scriptHelper() {
 				}
 				return "OK"
 			case "open":
-				ap, _ := filepath.Abs(w[3]) // where the name points NOW (the directory may change later)
 				f, u, err := hsOpen(w[2], w[3])
 				if err != nil {
-					holders[w[1]] = &hsHolder{called: true, path: ap}
+					holders[w[1]] = &hsHolder{called: true, path: w[3]}
 					return "ERR"
 				}
-				holders[w[1]] = &hsHolder{f: f, unlock: u, path: ap}
+				// where the name points NOW, as the OS resolves it (the directory may change
+				// later; no lexical cleaning: link/.. is not the directory the link is in)
+				d, i, have := statKey(w[3])
+				holders[w[1]] = &hsHolder{f: f, unlock: u, path: w[3], dev: d, ino: i, have: have}
 				return "OK"
+			case "call":
+				return hsCall(w[1], w[2], w[3])
 			case "mnew":
 				mutexes[w[1]] = lockedfile.MutexAt(w[2])
 				return "OK"
@@ -169,11 +268,10 @@ func scriptHelper() {
 					return "SKIP"
 				}
 				var st unix.Stat_t
-			if unix.Fstat(int(h.f.Fd()), &st) != nil {
-				return "ERR"
-			}
-			d, i, have := statKey(h.path)
-				if !have || uint64(st.Dev) != d || st.Ino != i {
+				if unix.Fstat(int(h.f.Fd()), &st) != nil {
+					return "ERR"
+				}
+				if !h.have || uint64(st.Dev) != h.dev || st.Ino != h.ino {
 					return "ERR"
 				}
 				return "OK"
@@ -195,6 +293,7 @@ type hsStep struct {
 	P    int    // path index (open, mnew)
 	Sp   int    // spelling (open, mnew)
 	Dir  string // cd: "." or "sub"
+	Mode string // call: ok err panic goexit
 }
 
 func (s hsStep) String() string {
@@ -207,6 +306,8 @@ func (s hsStep) String() string {
 		return fmt.Sprintf("mnew M%d f%d s%d", s.L, s.P, s.Sp)
 	case "lock":
 		return fmt.Sprintf("lock L%d M%d", s.L, s.M)
+	case "call":
+		return fmt.Sprintf("call %s:%s f%d s%d", s.Api, s.Mode, s.P, s.Sp)
 	case "close", "io":
 		return fmt.Sprintf("%s L%d", s.Op, s.L)
 	}
@@ -236,6 +337,9 @@ func hsParseScript(text string) []hsStep {
 			sc = append(sc, hsStep{Op: "open", L: num(w[1]), Api: w[2], P: num(w[3]), Sp: num(w[4])})
 		case w[0] == "mnew" && len(w) == 4:
 			sc = append(sc, hsStep{Op: "mnew", L: num(w[1]), P: num(w[2]), Sp: num(w[3])})
+		case w[0] == "call" && len(w) == 4 && strings.Contains(w[1], ":"):
+			am := strings.SplitN(w[1], ":", 2)
+			sc = append(sc, hsStep{Op: "call", Api: am[0], Mode: am[1], P: num(w[2]), Sp: num(w[3])})
 		case w[0] == "lock" && len(w) == 3:
 			sc = append(sc, hsStep{Op: "lock", L: num(w[1]), M: num(w[2])})
 		case (w[0] == "close" || w[0] == "io") && len(w) == 2:
@@ -249,30 +353,81 @@ func hsParseScript(text string) []hsStep {
 
 const hsPaths = 3
 
-// spelling of file p of the base directory, seen from cwd ("." = base, "sub" = base/sub)
+// Layout of the base directory of a script (hsLayout): the files f0..f2; the directory sub;
+// far/in (real directories); sub/lnk -> ../far/in (so that sub/lnk/.. IS far, whatever a lexical
+// cleaning of the name says); far/fN -> ../fN (symlinks to the files themselves); self -> .
+const hsSpellings = 10
+
+func hsLayout(base string) error {
+	for _, d := range []string{"sub", "far", "far/in"} {
+		if err := os.Mkdir(filepath.Join(base, d), 0o777); err != nil {
+			return err
+		}
+	}
+	if err := os.Symlink("../far/in", filepath.Join(base, "sub", "lnk")); err != nil {
+		return err
+	}
+	if err := os.Symlink(".", filepath.Join(base, "self")); err != nil {
+		return err
+	}
+	for p := 0; p < hsPaths; p++ {
+		if err := os.Symlink(fmt.Sprintf("../f%d", p), filepath.Join(base, "far", fmt.Sprintf("f%d", p))); err != nil {
+			return err
+		}
+	}
+	return nil
+}
+
+// hsAbsSp: the spelling is absolute (names the same file from every working directory)
+func hsAbsSp(sp int) bool { return sp%hsSpellings%2 == 0 && sp%hsSpellings != 2 }
+
+// hsLinkSp: the last element of the spelling is a symlink to the file (O_CREATE|O_EXCL answers
+// EEXIST for it whether or not the file exists: not issued)
+func hsLinkSp(sp int) bool { k := sp % hsSpellings; return k >= 4 && k <= 7 }
+
+// spelling of file p of the base directory, seen from cwd ("." = base, "sub" = base/sub).
+// Spellings are written out as strings (filepath.Join would clean them).
 func hsSpell(base, cwd string, p, sp int) string {
 	name := fmt.Sprintf("f%d", p)
+	switch sp % hsSpellings { // the absolute ones
+	case 0:
+		return base + "/" + name
+	case 4:
+		return base + "/sub/lnk/../" + name // = far/fN -> ../fN
+	case 6:
+		return base + "/far/" + name
+	case 8:
+		return base + "/self/" + name
+	}
 	if cwd == "." {
-		switch sp % 4 {
-		case 0:
-			return filepath.Join(base, name)
+		switch sp % hsSpellings {
 		case 1:
 			return name
 		case 2:
 			return "./" + name
-		default:
+		case 3:
 			return "sub/../" + name
+		case 5:
+			return "sub/lnk/../" + name
+		case 7:
+			return "far/" + name
+		default:
+			return "self/sub/../" + name
 		}
 	}
-	switch sp % 4 {
-	case 0:
-		return filepath.Join(base, name)
+	switch sp % hsSpellings {
 	case 1:
 		return "../" + name
 	case 2:
 		return "./../" + name
-	default:
+	case 3:
 		return "../sub/../" + name
+	case 5:
+		return "lnk/../" + name
+	case 7:
+		return "../far/" + name
+	default:
+		return "../self/" + name
 	}
 }
 
@@ -281,8 +436,12 @@ func hsFlags(api string) (int, bool) {
 	switch {
 	case api == "create":
 		return os.O_RDWR | os.O_CREATE | os.O_TRUNC, true
-	case api == "edit", api == "mutexat", api == "lock":
+	case api == "edit", api == "mutexat", api == "lock", api == "transform":
 		return os.O_RDWR | os.O_CREATE, true
+	case api == "write":
+		return os.O_WRONLY | os.O_CREATE | os.O_TRUNC, true
+	case api == "read":
+		return os.O_RDONLY, true
 	case api == "open":
 		return os.O_RDONLY, true
 	case strings.HasPrefix(api, "openfile:"):
@@ -372,7 +531,7 @@ func (r *hsRef) step(s hsStep) (string, bool) {
 			return "", false
 		}
 		r.mpath[s.L] = s.P
-		if s.Sp%4 != 0 {
+		if !hsAbsSp(s.Sp) {
 			r.mcwd[s.L] = r.cwd
 		}
 		return "OK", true
@@ -390,6 +549,9 @@ func (r *hsRef) step(s hsStep) (string, bool) {
 		if _, dup := r.labs[s.L]; dup || !ok || p < 0 || p >= hsPaths {
 			return "", false
 		}
+		if s.Op == "open" && fl&os.O_EXCL != 0 && hsLinkSp(s.Sp) {
+			return "", false
+		}
 		succ, write, ok := r.acquire(p, fl)
 		if !ok {
 			return "", false
@@ -401,6 +563,29 @@ func (r *hsRef) step(s hsStep) (string, bool) {
 			return "OK", true
 		}
 		return "ERR", true
+	case "call":
+		want, okm := map[string]string{"ok": "OK", "err": "ERR", "panic": "UNWOUND", "goexit": "GOEXIT"}[s.Mode]
+		fl, ok := hsFlags(s.Api)
+		switch {
+		case !okm || !ok || s.P < 0 || s.P >= hsPaths || strings.HasPrefix(s.Api, "openfile:") || s.Api == "lock":
+			return "", false
+		case s.Api == "read" && s.Mode != "ok":
+			return "", false // nothing of the caller's runs inside Read
+		case s.Api == "write" && s.Mode != "ok" && s.Mode != "err":
+			// Write closes explicitly after io.Copy (no defer): on the UNCHANGED tree a content
+			// reader that panics or calls Goexit leaves the file locked (reported as a finding
+			// of /repo; not alarmed on here).  Readers that return an error are covered.
+			return "", false
+		}
+		succ, _, ok := r.acquire(s.P, fl)
+		if !ok {
+			return "", false
+		}
+		if !succ {
+			return "ERR", true
+		}
+		r.exists[s.P] = true
+		return want, true // and nothing is held any more: the labels are as before
 	case "close":
 		l := r.labs[s.L]
 		switch {
@@ -441,6 +626,9 @@ var hsWriteApis = []string{"create", "edit", "mutexat", fmt.Sprintf("openfile:%d
 	fmt.Sprintf("openfile:%d", os.O_WRONLY|os.O_APPEND), fmt.Sprintf("openfile:%d", os.O_RDWR|os.O_CREATE|os.O_EXCL),
 	fmt.Sprintf("openfile:%d", os.O_WRONLY|os.O_CREATE|os.O_TRUNC)}
 
+var hsCallApis = []string{"transform", "transform", "transform", "write", "read", "edit", "create", "open", "mutexat"}
+var hsCallModes = []string{"ok", "err", "panic", "goexit", "panic", "goexit"}
+
 // hsGen: a random admissible script.  flavour biases it: 0 mixed, 1 many cycles of few Mutex
 // values, 2 Close repeated on stale Files between other opens, 3 garbage collections while
 // relative spellings are held.
@@ -477,12 +665,14 @@ func hsGen(rng *common.RNG, n, flavour int, exists [hsPaths]bool) []hsStep {
 		return c[rng.Intn(len(c))], true
 	}
 	for len(sc) < n {
-		k := rng.Intn(20)
-		sp := rng.Intn(4)
+		k := rng.Intn(23)
+		sp := rng.Intn(hsSpellings)
 		if flavour == 3 && rng.Intn(3) > 0 {
-			sp = 1 + rng.Intn(3) // relative
+			sp = common.Pick(rng, []int{1, 2, 3, 5, 7, 9}) // relative
 		}
 		switch {
+		case k >= 20: // a complete call, ending in every way a callback / body can end
+			try(hsStep{Op: "call", Api: common.Pick(rng, hsCallApis), Mode: common.Pick(rng, hsCallModes), P: rng.Intn(hsPaths), Sp: sp})
 		case k < 4: // a read-locking call
 			if try(hsStep{Op: "open", L: nextL, Api: common.Pick(rng, hsReadApis), P: rng.Intn(hsPaths), Sp: sp}) {
 				nextL++
@@ -587,7 +777,9 @@ func runHoldScript(self, work string, sc []hsStep, exists [hsPaths]bool) (hsFind
 	if a, err := filepath.Abs(base); err == nil {
 		base = a // the helper changes directory
 	}
-	os.Mkdir(filepath.Join(base, "sub"), 0o777)
+	if err := hsLayout(base); err != nil {
+		return fd, err
+	}
 	var abs []string
 	for p := 0; p < hsPaths; p++ {
 		a := filepath.Join(base, fmt.Sprintf("f%d", p))
@@ -636,6 +828,8 @@ func runHoldScript(self, work string, sc []hsStep, exists [hsPaths]bool) (hsFind
 			line = fmt.Sprintf("mnew M%d %s", s.L, hsSpell(base, cwdBefore, s.P, s.Sp))
 		case "lock":
 			line = fmt.Sprintf("lock L%d M%d", s.L, s.M)
+		case "call":
+			line = fmt.Sprintf("call %s %s %s", s.Api, s.Mode, hsSpell(base, cwdBefore, s.P, s.Sp))
 		default:
 			line = s.String()
 		}
@@ -672,6 +866,9 @@ func runHoldScript(self, work string, sc []hsStep, exists [hsPaths]bool) (hsFind
 				continue
 			}
 			rdn, wrn := ref.holders(p)
+			if s.Op == "call" && s.P == p && !((want == 'x') || (want == 's' && got == 'f')) {
+				return found(i, "lock-outlives-the-call", "after step %d (%s): the call is over (it answered %s: its callback / body ended by %s) and %d read / %d write holder(s) of f%d are between return and Close, yet another process finds the file %s — the call did not release the lock it took", i, s, gotSt, s.Mode, rdn, wrn, p, stateName(got)), nil
+			}
 			who := fmt.Sprintf("%d read holder(s) and %d write holder(s) of f%d are between return and Close", rdn, wrn, p)
 			if (want == 'x') || (want == 's' && got == 'f') {
 				return found(i, "lock-not-held-until-Close", "after step %d (%s): %s, yet another process finds the file %s — a lock was given up without Close / unlock having been called", i, s, who, stateName(got)), nil
@@ -752,22 +949,28 @@ func (rn *runner) holdSeqOne(c hsCase, shrink bool) bool {
 		budget := 40
 		for changed := true; changed && budget > 0; {
 			changed = false
-			for i := len(best) - 2; i >= 0 && budget > 0; i-- {
-				cand := append(append([]hsStep{}, best[:i]...), best[i+1:]...)
-				if !hsValid(cand, exists) {
-					continue
-				}
-				budget--
-				f2, err := runHoldScript(rn.self, rn.f.Work, cand, exists)
-				if err == nil && f2.oracle == bestFd.oracle {
-					best, bestFd, changed = cand[:f2.step+1], f2, true
+			// windows of one, two, three steps (an open with its Close goes only together)
+			for w := 1; w <= 3; w++ {
+				for i := len(best) - 1 - w; i >= 0 && budget > 0; i-- {
+					if i+w >= len(best) {
+						continue
+					}
+					cand := append(append([]hsStep{}, best[:i]...), best[i+w:]...)
+					if !hsValid(cand, exists) {
+						continue
+					}
+					budget--
+					f2, err := runHoldScript(rn.self, rn.f.Work, cand, exists)
+					if err == nil && f2.oracle == bestFd.oracle {
+						best, bestFd, changed = cand[:f2.step+1], f2, true
+					}
 				}
 			}
 		}
 	}
 	script := hsScriptString(best)
 	rn.violate("impl-violation", "hold:"+bestFd.oracle, "holdseq "+bestFd.oracle,
-		bestFd.detail+" — script: "+script+" (files existing at the start: "+c.Exists+"; L = File / unlock function, M = Mutex value, s1..s3 = relative spellings)",
+		bestFd.detail+" — script: "+script+" (files existing at the start: "+c.Exists+"; L = File / unlock function, M = Mutex value, s0..s9 = spellings: 0 absolute, 1-3 relative, 4/5 through sub/lnk/.. with sub/lnk -> ../far/in and far/fN -> ../fN, 6/7 through the symlink far/fN, 8/9 through self -> .; odd = relative)",
 		strings.Join(bestFd.obs, " | "), "", map[string]string{"kind": "holdseq", "script": script, "exists": c.Exists})
 	return true
 }
@@ -808,8 +1011,49 @@ func (rn *runner) holdSeqModel(c hsCase, sc []hsStep, exists [hsPaths]bool, fd h
 	isFile := map[int]bool{}
 	var evs, impl []string
 	nh := 0
+	ref := newHsRef(exists)
 	for i, st := range sc {
+		callSucc := false
+		if st.Op == "call" {
+			fl, _ := hsFlags(st.Api)
+			callSucc, _, _ = ref.acquire(st.P, fl)
+		}
+		ref.step(st)
 		switch st.Op {
+		case "call":
+			// a complete call = the events of its open and of its Close / unlock, nothing
+			// observed in between; however the callback ended, the model's Close has happened
+			// when the call is over (the deferred Close)
+			fl, _ := hsFlags(st.Api)
+			if st.Api == "mutexat" {
+				mi := len(mutex)
+				mutex[-1000000-i] = mi
+				evs = append(evs, fmt.Sprintf("mn:%d", st.P), fmt.Sprintf("ml:%d", mi))
+				impl = append(impl, "", "")
+				if callSucc {
+					evs = append(evs, fmt.Sprintf("mu:%d", nh))
+					impl[len(impl)-1] = ""
+					impl = append(impl, "")
+				}
+			} else {
+				evs = append(evs, fmt.Sprintf("o:%d:%d", st.P, fl))
+				impl = append(impl, "")
+				if callSucc {
+					evs = append(evs, fmt.Sprintf("c:%d", nh))
+					impl = append(impl, "")
+				}
+			}
+			nh++
+			f := strings.Fields(fd.obs[i])
+			if len(f) != 3 {
+				return
+			}
+			ans := "ERR"
+			if callSucc {
+				ans = "OK"
+			}
+			impl[len(impl)-1] = ans + ":" + strings.ReplaceAll(f[1], "-", "f") + ":" + f[2]
+			continue
 		case "open":
 			fl, _ := hsFlags(st.Api)
 			if st.Api == "mutexat" {
